@@ -851,3 +851,380 @@ def gen_formulas_c14():
     open(os.path.join(GEN, 'Formulas14.v'), 'w').write('\n'.join(lines) + '\n')
     ok, log = compile_gen('Formulas14.v')
     return ('formulas14: the five closed-form metrics of metrics.py, regenerated, equal the model formulas (field)', ok, 'ok' if ok else log[-600:])
+
+
+# ---------------------------------------------------------------- unit: free-energy formula (C09)
+def formulas_c09_unit():
+    tree = _parse('volume.py')
+    if not any(isinstance(n, ast.ImportFrom) and n.module == 'scipy.constants' and 'physical_constants' in [a.name for a in n.names if not a.asname]
+               for n in tree.body):
+        raise Unsupported('volume.py: from scipy.constants import physical_constants')
+    pr = _find_func(tree, 'Volume', 'probability')
+    pe = _Formula({'self.data': 'c', 'self.data.sum()': 'total'}, {}).run(pr)
+    fe = _find_func(tree, 'Volume', 'get_free_energy')
+    body = [s for s in fe.body if not (isinstance(s, ast.Expr) and isinstance(s.value, ast.Constant))]
+    if len(body) != 3:
+        raise Unsupported('get_free_energy has %d statements' % len(body))
+    if ast.unparse(body[0]) != 'prob = self.probability()':
+        raise Unsupported('get_free_energy: ' + ast.unparse(body[0]))
+    fm = _Formula({"physical_constants['Boltzmann constant in eV/K'][0]": 'kB', 'np.log(self.probability())': '(ln p)'}, {'temperature': 'temperature'})
+    fm.envast['prob'] = ast.parse('self.probability()', mode='eval').body
+    if not (isinstance(body[1], ast.Assign) and ast.unparse(body[1].targets[0]) == 'free_energy'):
+        raise Unsupported('get_free_energy: ' + ast.unparse(body[1])[:60])
+    fexpr = fm.ev(body[1].value)
+    ret = ast.unparse(body[2])
+    if ret != 'return FreeEnergyVolume(data=np.nan_to_num(free_energy), lattice=self.lattice)':
+        raise Unsupported('get_free_energy return: ' + ret)
+    return pe, fexpr
+
+
+def gen_formulas_c09():
+    os.makedirs(GEN, exist_ok=True)
+    try:
+        pe, fe = formulas_c09_unit()
+    except Unsupported as e:
+        return ('formulas09', False, f'translator: unsupported {e}')
+    lines = ['(* GENERATED from /repo/src/gemdat/volume.py (Volume.probability, Volume.get_free_energy) on every run -- do not edit *)',
+             'From Coq Require Import Reals Lra.', 'From GV Require Import Model.C09.', 'Open Scope R_scope.',
+             f'Definition gen_prob (c total : R) : R := {pe}.',
+             'Lemma gen_prob_is_model : forall c total, gen_prob c total = prob c total.',
+             'Proof. intros. reflexivity. Qed.',
+             '(* the expression handed to np.nan_to_num, per voxel with probability p > 0; for p = 0 numpy evaluates log(0) = -inf, the product +inf,',
+             '   and nan_to_num maps +inf to the largest finite double: that case is the BIG branch of the model and is tied by the discrete part of the check *)',
+             f'Definition gen_free_energy_visited (temperature kB p : R) : R := {fe}.',
+             'Lemma gen_free_energy_is_model : forall temperature kB p, p <> 0 -> gen_free_energy_visited temperature kB p = free_energy (temperature * kB) p.',
+             'Proof. intros. unfold gen_free_energy_visited, free_energy. destruct (Req_EM_T p 0); [contradiction | ring]. Qed.']
+    open(os.path.join(GEN, 'Formulas09.v'), 'w').write('\n'.join(lines) + '\n')
+    ok, log = compile_gen('Formulas09.v')
+    return ('formulas09: Volume.probability and the expression of get_free_energy, regenerated, equal the model (nan_to_num applied last, to the product)', ok,
+            'ok' if ok else log[-600:])
+
+
+# ---------------------------------------------------------------- unit: jump diffusivity formula (C05)
+def formulas_c05_unit():
+    tree = _parse('jumps.py')
+    if not any(isinstance(n, ast.ImportFrom) and n.module == 'scipy.constants' and 'angstrom' in [a.name for a in n.names if not a.asname]
+               for n in tree.body):
+        raise Unsupported('jumps.py: from scipy.constants import angstrom')
+    f = _find_func(tree, 'Jumps', 'jump_diffusivity')
+    fm = _Formula({'np.sum(self.trajectory.get_lattice().get_all_distances(self.sites.frac_coords, self.sites.frac_coords) ** 2 * self.matrix())': 'sumd2',
+                   'self.n_floating': 'n_floating', 'self.trajectory.total_time': 'total_time'}, {'dimensions': 'dim', 'angstrom': '(/ 10000000000)'})
+    return fm.run(f)
+
+
+def gen_formulas_c05():
+    os.makedirs(GEN, exist_ok=True)
+    try:
+        e = formulas_c05_unit()
+    except Unsupported as ex:
+        return ('formulas05', False, f'translator: unsupported {ex}')
+    lines = ['(* GENERATED from /repo/src/gemdat/jumps.py (Jumps.jump_diffusivity) on every run -- do not edit *)',
+             'From Coq Require Import Reals Lra.', 'Open Scope R_scope.',
+             f'Definition gen_jump_diffusivity (sumd2 dim n_floating total_time : R) : R := {e}.',
+             '(* sumd2 = sum over site pairs of (periodic distance)^2 * number of jumps, in A^2: the quantity the integer model C05 computes exactly *)',
+             'Lemma gen_jump_diffusivity_is_formula : forall sumd2 dim n_floating total_time, dim <> 0 -> n_floating <> 0 -> total_time <> 0 ->',
+             '  gen_jump_diffusivity sumd2 dim n_floating total_time = sumd2 / 100000000000000000000 / (2 * dim * n_floating * total_time).',
+             'Proof. intros. unfold gen_jump_diffusivity. field. repeat split; assumption. Qed.']
+    open(os.path.join(GEN, 'Formulas05.v'), 'w').write('\n'.join(lines) + '\n')
+    ok, log = compile_gen('Formulas05.v')
+    return ('formulas05: jump_diffusivity = sum(d^2 * counts) * 1e-20 / (2 * dimensions * n_floating * total_time), regenerated (field)', ok, 'ok' if ok else log[-600:])
+
+
+# ---------------------------------------------------------------- unit: pairwise scan of Collective._compute (C12)
+_JCOL = {'stop time': 'j_stop', 'start time': 'j_start', 'atom index': 'j_atom', 'start site': 'j_from', 'destination site': 'j_to'}
+
+
+def _cexpr(node):
+    """integer expression over event_i[...], event_j[...], max_steps, max_transit"""
+    if isinstance(node, ast.Subscript) and isinstance(node.value, ast.Name) and node.value.id in ('event_i', 'event_j') \
+            and isinstance(node.slice, ast.Constant) and node.slice.value in _JCOL:
+        return f'{_JCOL[node.slice.value]} e{node.value.id[-1]}'
+    if isinstance(node, ast.Name) and node.id in ('max_steps', 'max_transit'):
+        return {'max_steps': 'W', 'max_transit': 'mt'}[node.id]
+    if isinstance(node, ast.BinOp) and isinstance(node.op, (ast.Add, ast.Sub)):
+        return f'{_cexpr(node.left)} {"+" if isinstance(node.op, ast.Add) else "-"} {_cexpr(node.right)}'
+    raise Unsupported('scan expression ' + ast.unparse(node))
+
+
+def _ccond(node):
+    if isinstance(node, ast.Compare) and len(node.ops) == 1:
+        l, r = _cexpr(node.left), _cexpr(node.comparators[0])
+        op = {ast.Gt: '>?', ast.GtE: '>=?', ast.Lt: '<?', ast.LtE: '<=?', ast.Eq: '=?'}.get(type(node.ops[0]))
+        if op:
+            return f'({l} {op} {r})'
+    raise Unsupported('scan condition ' + ast.unparse(node))
+
+
+def collective_scan_unit():
+    tree = _parse('collective.py')
+    f = _find_func(tree, 'Collective', '_compute')
+    src = ast.unparse(f)
+    for need in ("events = events.sort_values(['stop time', 'start time'], ignore_index=True)",
+                 "max_transit = (events['stop time'] - events['start time']).max() if len(events) else 0",
+                 "self.n_solo_jumps = len(events) - np.any(collective_matrix, axis=0).sum()",
+                 "self.n_coll_jumps = len(events) - self.n_solo_jumps", "self.collective = collective", "self.coll_jumps = coll_jumps",
+                 "max_steps = self.max_steps", "max_dist = self.max_dist", "events = self.jumps.data"):
+        if need not in src:
+            raise Unsupported('Collective._compute: missing `%s`' % need)
+    loops = [n for n in f.body if isinstance(n, ast.For)]
+    if len(loops) != 1 or ast.unparse(loops[0].target) != '(i, event_i)' or ast.unparse(loops[0].iter) != 'events[:-1].iterrows()':
+        raise Unsupported('outer loop header')
+    ob = loops[0].body
+    if len(ob) != 1 or not isinstance(ob[0], ast.For) or ast.unparse(ob[0].target) != '(j, event_j)' or ast.unparse(ob[0].iter) != 'events[i + 1:].iterrows()':
+        raise Unsupported('inner loop header')
+    body = ob[0].body
+    guards = []
+    k = 0
+    while k < len(body) and isinstance(body[k], ast.If) and len(body[k].body) == 1 and not body[k].orelse and isinstance(body[k].body[0], (ast.Break, ast.Continue)):
+        guards.append((_ccond(body[k].test), 'break' if isinstance(body[k].body[0], ast.Break) else 'continue'))
+        k += 1
+    rest = [ast.unparse(s) for s in body[k:]]
+    want = ["a = sites.frac_coords[[event_i['start site'], event_i['destination site']]]",
+            "b = sites.frac_coords[[event_j['start site'], event_j['destination site']]]",
+            'dists = lattice.get_all_distances(a, b)']
+    if rest[:3] != want or len(rest) != 4:
+        raise Unsupported('distance block of the scan: ' + ' ; '.join(rest[:3])[:200])
+    last = body[k + 3]
+    if not (isinstance(last, ast.If) and ast.unparse(last.test) == 'np.any(dists < max_dist)' and not last.orelse):
+        raise Unsupported('closeness test: ' + ast.unparse(last.test))
+    acts = [ast.unparse(s) for s in last.body]
+    if acts != ['collective.append((event_i, event_j))',
+                "coll_jumps.append(((event_i['start site'], event_i['destination site']), (event_j['start site'], event_j['destination site'])))",
+                'collective_matrix[i, j] = True', 'collective_matrix[j, i] = True']:
+        raise Unsupported('actions of a collective pair: ' + ' ; '.join(acts)[:300])
+    return guards
+
+
+def gen_collective_scan():
+    os.makedirs(GEN, exist_ok=True)
+    try:
+        guards = collective_scan_unit()
+    except Unsupported as e:
+        return ('collscan', False, f'translator: unsupported {e}')
+    chain = ''
+    for cond, act in guards:
+        chain += f'        if {cond} then {"[]" if act == "break" else "gen_inner mt ei r"}\n        else '
+    lines = ['(* GENERATED from /repo/src/gemdat/collective.py (Collective._compute) on every run -- do not edit *)',
+             'From GV Require Import Base.Prelude Model.C04 Model.C12.',
+             'Section Gen.', '  Variable W : Z.', '  Variable d2 : list (list Z).', '  Variable maxd2 : Z.',
+             '  Fixpoint gen_inner (mt : Z) (ei : jump) (rest : list jump) : list (jump * jump) :=',
+             '    match rest with', '    | [] => []', '    | ej :: r =>', chain + 'if close d2 maxd2 ei ej then (ei, ej) :: gen_inner mt ei r else gen_inner mt ei r',
+             '    end.',
+             '  Fixpoint gen_outer (mt : Z) (l : list jump) : list (jump * jump) :=',
+             '    match l with [] => [] | ei :: r => gen_inner mt ei r ++ gen_outer mt r end.',
+             '  Lemma gen_inner_is_model : forall mt ei rest, gen_inner mt ei rest = inner W d2 maxd2 mt ei rest.',
+             '  Proof. intros mt ei rest. induction rest as [|ej r IH]; [reflexivity|]. cbn [gen_inner inner]. rewrite IH. reflexivity. Qed.',
+             '  Theorem gen_outer_is_model : forall mt l, gen_outer mt l = outer W d2 maxd2 mt l.',
+             '  Proof. intros mt l. induction l as [|ei r IH]; [reflexivity|]. cbn [gen_outer outer]. rewrite IH, gen_inner_is_model. reflexivity. Qed.',
+             'End Gen.']
+    open(os.path.join(GEN, 'CollScan.v'), 'w').write('\n'.join(lines) + '\n')
+    ok, log = compile_gen('CollScan.v')
+    return ('collscan: the pairwise scan of Collective._compute (sort keys, guards with break/continue in source order, closeness test, bookkeeping) '
+            'regenerated and proved equal to Model.C12.outer', ok, 'ok' if ok else log[-600:])
+
+
+# ---------------------------------------------------------------- unit: time windows of split (C19)
+def split_windows_unit():
+    tree = _parse('transitions.py')
+    f = _find_func(tree, None, '_split_transitions_events')
+    body = [s for s in f.body if not (isinstance(s, ast.Expr) and isinstance(s.value, ast.Constant))]
+    defaults = {a.arg: ast.unparse(d) for a, d in zip(f.args.args[-len(f.args.defaults):], f.args.defaults)}
+    if defaults.get('split_key') != "'time'" or defaults.get('dependent_keys') != "'time'":
+        raise Unsupported('split key defaults ' + str(defaults))
+    if len(body) != 5:
+        raise Unsupported('_split_transitions_events has %d statements' % len(body))
+    g = body[0]
+    if not (isinstance(g, ast.If) and ast.unparse(g.test) == 'len(events) < n_parts' and isinstance(g.body[0], ast.Raise) and not g.orelse):
+        raise Unsupported('guard ' + ast.unparse(g)[:80])
+    b = body[1]
+    if not (isinstance(b, ast.Assign) and ast.unparse(b.targets[0]) == 'bins' and isinstance(b.value, ast.Call) and ast.unparse(b.value.func) == 'np.linspace'
+            and len(b.value.args) == 3 and ast.unparse(b.value.args[0]) == '0' and ast.unparse(b.value.args[2]) == 'n_parts + 1'
+            and [(k.arg, ast.unparse(k.value)) for k in b.value.keywords] == [('dtype', 'int')]):
+        raise Unsupported('bins: ' + ast.unparse(b))
+    top = _zexpr(b.value.args[1], {'n_states': 'n_states'})
+    p = body[2]
+    if not (isinstance(p, ast.Assign) and ast.unparse(p.targets[0]) == 'parts' and isinstance(p.value, ast.ListComp) and len(p.value.generators) == 1):
+        raise Unsupported('parts: ' + ast.unparse(p)[:80])
+    gen = p.value.generators[0]
+    if ast.unparse(gen.target) != '(start, stop)' or ast.unparse(gen.iter) != 'pairwise(bins)' or gen.ifs:
+        raise Unsupported('parts generator: ' + ast.unparse(gen.iter))
+    elt = p.value.elt
+    if not (isinstance(elt, ast.Call) and ast.unparse(elt.func).endswith('.copy') and isinstance(elt.func.value, ast.Subscript)
+            and ast.unparse(elt.func.value.value) == 'events' and isinstance(elt.func.value.slice, ast.BinOp) and isinstance(elt.func.value.slice.op, ast.BitAnd)):
+        raise Unsupported('mask: ' + ast.unparse(elt)[:100])
+
+    def side(n):
+        if not (isinstance(n, ast.Compare) and len(n.ops) == 1 and ast.unparse(n.left) == 'events[split_key]' and isinstance(n.comparators[0], ast.Name)
+                and n.comparators[0].id in ('start', 'stop')):
+            raise Unsupported('mask side: ' + ast.unparse(n))
+        op = {ast.Gt: '>?', ast.GtE: '>=?', ast.Lt: '<?', ast.LtE: '<=?'}.get(type(n.ops[0]))
+        if op is None:
+            raise Unsupported('mask operator: ' + ast.unparse(n))
+        return f'(r_t r {op} {n.comparators[0].id})'
+    mask = f'{side(elt.func.value.slice.left)} && {side(elt.func.value.slice.right)}'
+    lp = body[3]
+    if not (isinstance(lp, ast.For) and ast.unparse(lp.target) == '(offset, part)' and ast.unparse(lp.iter) == 'zip(bins[:-1], parts)'
+            and [ast.unparse(s) for s in lp.body] == ['part[dependent_keys] -= offset']):
+        raise Unsupported('re-basing loop: ' + ast.unparse(lp)[:120])
+    if ast.unparse(body[4]) != 'return parts':
+        raise Unsupported('return')
+    # Transitions.split: which arrays are cut how, and which upper bound is used for the event windows
+    sp = ast.unparse(_find_func(tree, 'Transitions', 'split'))
+    for need in ('split_states = np.array_split(self.states, n_parts)', 'split_inner_states = np.array_split(self.inner_states, n_parts)',
+                 'split_events = _split_transitions_events(self.events, self.n_states, n_parts)', 'split_trajectory = self.trajectory.split(n_parts)',
+                 'states=split_states[i]', 'inner_states=split_inner_states[i]', 'events=split_events[i]', 'trajectory=split_trajectory[i]'):
+        if need not in sp:
+            raise Unsupported('Transitions.split: missing `%s`' % need)
+    ns = ast.unparse(_find_func(tree, 'Transitions', 'n_states'))
+    if 'return len(self.states)' not in ns:
+        raise Unsupported('Transitions.n_states')
+    # Trajectory.split
+    tt = _parse('trajectory.py')
+    ts = ast.unparse(_find_func(tt, 'Trajectory', 'split'))
+    for need in ('interval = np.linspace(0, len(self) - 1, n_parts + 1, dtype=int)', 'subtrajectories = [self[start:stop] for start, stop in pairwise(interval)]',
+                 'minsize = len(self)', 'size = stop - start', 'minsize = min(minsize, size)', 'subtrajectories = [trajectory[0:minsize] for trajectory in subtrajectories]'):
+        if need not in ts:
+            raise Unsupported('Trajectory.split: missing `%s`' % need)
+    return top, mask
+
+
+def gen_split_windows():
+    os.makedirs(GEN, exist_ok=True)
+    try:
+        top, mask = split_windows_unit()
+    except Unsupported as e:
+        return ('splitwin', False, f'translator: unsupported {e}')
+    lines = ['(* GENERATED from /repo/src/gemdat/transitions.py (_split_transitions_events, Transitions.split) and trajectory.py (Trajectory.split) on every run -- do not edit *)',
+             'From GV Require Import Base.Prelude Model.C03 Model.C04 Model.C19.',
+             f'Definition gen_top (n_states : Z) : Z := {top}.',
+             f'Definition gen_in_win (start stop : Z) (r : row) : bool := {mask}.',
+             'Definition gen_split_events (bs : list Z) (evs : list row) : list (list row) :=',
+             '  map (fun w => map (shift_row (fst w)) (filter (gen_in_win (fst w) (snd w)) evs)) (pairwise bs).',
+             'Lemma gen_in_win_is_model : forall lo hi r, gen_in_win lo hi r = in_win lo hi r.',
+             'Proof. intros. unfold gen_in_win, in_win. rewrite ?Z.geb_leb, ?Z.gtb_ltb. reflexivity. Qed.',
+             'Theorem gen_split_events_is_model : forall bs evs, gen_split_events bs evs = split_events bs evs.',
+             'Proof. intros. unfold gen_split_events, split_events. apply map_ext. intros w. f_equal. apply filter_ext. intros r. apply gen_in_win_is_model. Qed.',
+             'Theorem gen_top_is_model : forall n, gen_top n = n + 1.',
+             'Proof. intros. unfold gen_top. lia. Qed.']
+    open(os.path.join(GEN, 'SplitWin.v'), 'w').write('\n'.join(lines) + '\n')
+    ok, log = compile_gen('SplitWin.v')
+    return ('splitwin: window test, upper bound and re-basing of _split_transitions_events regenerated and proved equal to Model.C19.split_events; '
+            'shape of Transitions.split / Trajectory.split checked', ok, 'ok' if ok else log[-600:])
+
+
+# ---------------------------------------------------------------- unit: per-atom event extraction (C03)
+_EVCOLS = {'atom index': 'r_atom', 'start site': 'r_s', 'destination site': 'r_d', 'start inner site': 'r_si', 'destination inner site': 'r_di', 'time': 'r_t'}
+
+
+def events_unit():
+    tree = _parse('transitions.py')
+    f = _find_func(tree, None, '_calculate_transition_events')
+    body = [s for s in f.body if not (isinstance(s, ast.Expr) and isinstance(s.value, ast.Constant))]
+    if [type(s).__name__ for s in body] != ['Assign', 'For', 'Assign', 'Assign', 'Return'] or ast.unparse(body[0]) != 'events = []':
+        raise Unsupported('_calculate_transition_events: statement kinds ' + str([type(s).__name__ for s in body]))
+    loop = body[1]
+    if ast.unparse(loop.target) != '(atom_index, site)' or ast.unparse(loop.iter) != 'enumerate(zip(atom_sites.T, atom_inner_sites.T))':
+        raise Unsupported('atom loop header: ' + ast.unparse(loop.iter))
+    if ast.unparse(body[2]) != 'events = np.vstack(events)' or ast.unparse(body[4]) != 'return events':
+        raise Unsupported('tail of _calculate_transition_events')
+    df = body[3]
+    cols = None
+    if isinstance(df.value, ast.Call) and ast.unparse(df.value.func) == 'pd.DataFrame':
+        kw = {k.arg: k.value for k in df.value.keywords}
+        if ast.unparse(kw.get('data')) == 'events' and isinstance(kw.get('columns'), ast.List):
+            cols = [c.value for c in kw['columns'].elts]
+    if cols is None or sorted(cols) != sorted(_EVCOLS):
+        raise Unsupported('DataFrame columns')
+    env = {}       # python name -> Coq term (list Z)
+    seq = {'atom_site': 'o', 'atom_inner_site': 'i'}
+    rows = None
+    st = loop.body
+    if ast.unparse(st[0]) != 'atom_site, atom_inner_site = site':
+        raise Unsupported('unpacking of site')
+    k = 1
+    while k < len(st):
+        s = st[k]
+        src = ast.unparse(s)
+        if isinstance(s, ast.Assign) and isinstance(s.targets[0], ast.Tuple) and len(s.targets[0].elts) == 1 and isinstance(s.value, ast.Call) \
+                and ast.unparse(s.value.func) == 'np.nonzero' and len(s.value.args) == 1:
+            a = s.value.args[0]
+            if isinstance(a, ast.Compare) and isinstance(a.ops[0], ast.NotEq) and isinstance(a.left, ast.Name) and a.left.id in seq \
+                    and ast.unparse(a.comparators[0]) == f'np.roll({a.left.id}, shift=-1)':
+                env[s.targets[0].elts[0].id] = f'(change_idx {seq[a.left.id]})'
+            else:
+                raise Unsupported('nonzero argument: ' + ast.unparse(a))
+        elif isinstance(s, ast.If) and not s.orelse and len(s.body) == 1:
+            t = ast.unparse(s.test)
+            done = False
+            for v in list(env):
+                for sq in seq:
+                    if t == f'len({v}) > 0 and {v}[-1] == len({sq}) - 1' and ast.unparse(s.body[0]) == f'{v} = {v}[:-1]':
+                        env[v] = f'(drop_wrap (Z.of_nat (length {seq[sq]})) {env[v]})'
+                        done = True
+            if not done:
+                if 'time' in env and t == 'len(time) < 1' and isinstance(s.body[0], ast.Continue):
+                    done = True      # an empty `time` contributes no rows either way
+            if not done:
+                raise Unsupported('conditional: ' + src[:100])
+        elif isinstance(s, ast.Assign) and ast.unparse(s.targets[0]) == 'time':
+            v = s.value
+            if isinstance(v, ast.Call) and ast.unparse(v.func) == 'np.unique' and isinstance(v.args[0], ast.Call) and ast.unparse(v.args[0].func) == 'np.concatenate' \
+                    and isinstance(v.args[0].args[0], ast.Tuple) and all(isinstance(e, ast.Name) and e.id in env for e in v.args[0].args[0].elts):
+                env['time'] = '(unique_below (length o) (' + ' ++ '.join(env[e.id] for e in v.args[0].args[0].elts) + '))'
+            else:
+                raise Unsupported('time: ' + src[:100])
+        elif isinstance(s, ast.Assign) and ast.unparse(s.targets[0]) == 'transitions':
+            v = s.value
+            if not (isinstance(v, ast.Attribute) and v.attr == 'T' and isinstance(v.value, ast.Call) and ast.unparse(v.value.func) == 'np.vstack'
+                    and isinstance(v.value.args[0], ast.List) and len(v.value.args[0].elts) == 6 and 'time' in env):
+                raise Unsupported('transitions: ' + src[:100])
+            fields = []
+            for e in v.value.args[0].elts:
+                u = ast.unparse(e)
+                if u == 'np.ones_like(time) * atom_index':
+                    fields.append('a')
+                elif u == 'time':
+                    fields.append('t')
+                elif isinstance(e, ast.Subscript) and isinstance(e.value, ast.Name) and e.value.id in seq and ast.unparse(e.slice) in ('time', 'time + 1'):
+                    fields.append(f'znth 0 {seq[e.value.id]} ' + ('t' if ast.unparse(e.slice) == 'time' else '(t + 1)'))
+                else:
+                    raise Unsupported('row entry: ' + u)
+            rows = '(map (fun t => {| ' + '; '.join(f'{_EVCOLS[c]} := {fv}' for c, fv in zip(cols, fields)) + ' |}) ' + env['time'] + ')'
+        elif src == 'events.append(transitions)' and rows is not None:
+            pass
+        else:
+            raise Unsupported('statement: ' + src[:100])
+        k += 1
+    if rows is None:
+        raise Unsupported('no rows built')
+    # ffill / bfill (utils.py): shape check of the three numpy lines the model transcribes
+    ut = _parse('utils.py')
+    ff = [ast.unparse(s) for s in _find_func(ut, None, 'ffill').body][1:]
+    if ff[-3:] != ['idx = np.where(arr != fill_val, np.arange(arr.shape[1]), 0)', 'np.maximum.accumulate(idx, axis=1, out=idx)',
+                   'return arr[np.arange(idx.shape[0])[:, None], idx]']:
+        raise Unsupported('ffill body')
+    bf = [ast.unparse(s) for s in _find_func(ut, None, 'bfill').body][1:]
+    if bf[-1] != 'return np.fliplr(ffill(np.fliplr(arr), fill_val=fill_val))':
+        raise Unsupported('bfill body')
+    tr = ast.unparse(_find_func(tree, 'Transitions', 'states_prev')) + ast.unparse(_find_func(tree, 'Transitions', 'states_next'))
+    if 'return ffill(self.states, fill_val=NOSITE, axis=0)' not in tr or 'return bfill(self.states, fill_val=NOSITE, axis=0)' not in tr:
+        raise Unsupported('states_prev / states_next')
+    return rows
+
+
+def gen_events():
+    os.makedirs(GEN, exist_ok=True)
+    try:
+        rows = events_unit()
+    except Unsupported as e:
+        return ('events', False, f'translator: unsupported {e}')
+    lines = ['(* GENERATED from /repo/src/gemdat/transitions.py (_calculate_transition_events) on every run -- do not edit *)',
+             'From GV Require Import Base.Prelude Model.C03.',
+             f'Definition gen_events_atom (a : Z) (o i : list Z) : list row :=\n  {rows}.',
+             'Theorem gen_events_atom_is_model : forall a o i, length o = length i -> gen_events_atom a o i = events_atom a o i.',
+             'Proof. intros a o i H. unfold gen_events_atom, events_atom, mkrow. rewrite <- ?H. reflexivity. Qed.']
+    open(os.path.join(GEN, 'Events.v'), 'w').write('\n'.join(lines) + '\n')
+    ok, log = compile_gen('Events.v')
+    return ('events: loop body of _calculate_transition_events (np.roll comparison, wrap-around drop with its length guard, unique of the concatenation, '
+            'row columns in DataFrame order) regenerated and proved equal to Model.C03.events_atom; shape of ffill/bfill/states_prev/states_next checked', ok,
+            'ok' if ok else log[-600:])
